@@ -25,11 +25,12 @@ META = {
              "DataFrame export + 6 copy/pickle operations), states deduplicated by a hash of (_data, cache keys and values); transitions are "
              "real calls on objects rebuilt from the history; non-trivial: every transition (all baseline values are defined)"),
     "exhaustive": True,
-    "bounds": {"quick": "results: auto/cross x {ragged plan, equal-K plan, single-bin} + Lmin=N plan; E2 depth 2", "thorough": "E2 depth 3 for reads and copies"},
+    "bounds": {"quick": "results: auto/cross x {ragged plan, equal-K plan, single-bin by L, single-bin by a non-dividing fres} + Lmin=N plan; E2 depth 2", "thorough": "E2 depth 3 for reads and copies"},
     "assumptions": ["fresh value = value read first on a newly constructed result with the same raw fields",
                     "hash covers _data and _cache completely, so equal hashes have equal futures"],
 }
-RESULTS = ("auto/ragged", "cross/ragged", "auto/equalK", "cross/equalK", "auto/single", "cross/single", "cross/LminN", "auto/LminN")
+RESULTS = ("auto/ragged", "cross/ragged", "auto/equalK", "cross/equalK", "auto/single", "cross/single", "cross/LminN", "auto/LminN",
+           "auto/singlefres", "cross/singlefres")
 
 
 def make_raw(kind, seed=0):
@@ -44,7 +45,12 @@ def make_raw(kind, seed=0):
     if shape == "LminN":
         kw.update(Lmin=N)
     an = ana.make_analyzer(ana.as_input(x, y), fs, **kw)
-    r = an.compute_single_bin(0.7, L=16) if shape == "single" else an.compute()
+    if shape == "single":
+        r = an.compute_single_bin(0.7, L=16)
+    elif shape == "singlefres":
+        r = an.compute_single_bin(0.7, fres=fs / 16.3)  # a resolution that is not fs/integer
+    else:
+        r = an.compute()
     d = dict(r._data)
     d["D"] = [np.asarray(v, dtype=np.int64) for v in d["D"]]
     d["compute_t"] = np.zeros_like(np.asarray(d["compute_t"], dtype=float))
@@ -67,13 +73,15 @@ def shards(tier, seed):
         if tier == "thorough":
             out.append({"part": "hist", "result": k, "seed": seed, "depth": 3, "alphabet": "copies+key"})
     out.append({"part": "constructed", "seed": seed})
+    for how in ("copy", "deepcopy", "pickle:2", "pickle:3", "pickle:4", "pickle:5"):
+        out.append({"part": "two", "how": how, "seed": seed})
     out.sort(key=lambda s: 0 if s["part"] == "hist" else 1)
     return out
 
 
 def run_shard(shard):
     ana.quiet()
-    return {"relations": _relations, "hist": _hist, "constructed": _constructed, "hist1": _hist1}[shard["part"]](shard)
+    return {"relations": _relations, "hist": _hist, "constructed": _constructed, "hist1": _hist1, "two": _two}[shard["part"]](shard)
 
 
 def replay(case):
@@ -375,3 +383,51 @@ def _hist1(case):
             fails.append(fw.fail(f"hist/{case['result']}/stale/{a}", f"history {case['hist']}: {a} differs from a fresh result's value", case))
             break
     return {"evals": 1, "nontrivial": 1, "failures": fails, "samples": []}
+
+
+def _two(shard):
+    """Histories over TWO results: clone A (after touching some attributes), read it, clone B, read everything on the clone of B,
+    then read A's clone again - for every ordered pair (A, B) of the result set.  Clones must not share anything."""
+    how = shard["how"]
+    raws = {k: make_raw(k, shard["seed"]) for k in RESULTS}
+    base = {}
+    for k, raw in raws.items():
+        names = rm.dynamic_names(fresh(raw))
+        base[k] = (names, {a: getattr(fresh(raw), a) for a in names})
+    out = {"evals": 0, "nontrivial": 0, "failures": [], "samples": [], "extra": {"two_result_histories": 0}}
+    seen = set()
+
+    def compare(obj, k, when, hist):
+        names, vals = base[k]
+        for a in names:
+            try:
+                v = getattr(obj, a)
+            except Exception as e:  # noqa: BLE001
+                return f"{when}: reading {a} raised {type(e).__name__}: {e}"
+            if not rm.identical(v, vals[a]):
+                return f"{when}: {a} differs from the value a fresh {k} result gives"
+        return None
+
+    for ka, kb in itertools.product(RESULTS, RESULTS):
+        for touch in ((), ("Gxx", "ENBW"), ("f", "Gxy_dev", "coh")):
+            ra = fresh(raws[ka])
+            for a in touch:
+                getattr(ra, a)
+            ca = rm.roundtrip(ra, how)
+            hist = [f"touch{list(touch)} on {ka}", f"{how}", f"{how} of fresh {kb}"]
+            msg = compare(ca, ka, f"clone of {ka}", hist)
+            rb = fresh(raws[kb])
+            cb = rm.roundtrip(rb, how)
+            msg = msg or compare(cb, kb, f"clone of {kb} made after a clone of {ka} was read", hist)
+            msg = msg or compare(ca, ka, f"clone of {ka} re-read after a clone of {kb} was read", hist)
+            msg = msg or compare(ra, ka, f"original {ka} after its clone was used", hist)
+            out["evals"] += 1
+            out["nontrivial"] += 1
+            out["extra"]["two_result_histories"] += 1
+            if msg:
+                key = f"two/{how}/{'same' if ka == kb else 'different'}-result"
+                if key not in seen:
+                    seen.add(key)
+                    out["failures"].append(fw.fail(key, f"{key}: history {hist}: {msg}", dict(shard)))
+    out["samples"].append({"two-result history": [f"touch on {RESULTS[0]}", how, f"{how} of {RESULTS[1]}"]})
+    return out
